@@ -36,6 +36,36 @@ class SimFSFile(object):
         self._pos += len(out)
         return out
 
+    def readinto(self, b):
+        data = self.read(len(b))
+        b[: len(data)] = data
+        return len(data)
+
+    readinto1 = readinto
+
+    def read1(self, n=-1):
+        return self.read(n)
+
+    def readline(self, limit=-1):
+        self._check()
+        end = self._buf.find(b"\n", self._pos)
+        end = len(self._buf) if end < 0 else end + 1
+        if limit is not None and limit >= 0:
+            end = min(end, self._pos + limit)
+        return self.read(end - self._pos)
+
+    def isatty(self):
+        return False
+
+    def fileno(self):
+        raise io.UnsupportedOperation("fileno")
+
+    def truncate(self, size=None):
+        self._check()
+        size = self._pos if size is None else size
+        del self._buf[size:]
+        return size
+
     def write(self, b):
         self._check()
         if "r" in self.mode and "+" not in self.mode:
@@ -50,6 +80,8 @@ class SimFSFile(object):
 
     def seek(self, off, whence=0):
         self._check()
+        if not -(1 << 63) <= off < (1 << 63):
+            raise OverflowError("Python int too large to convert to C long")
         if whence == 0:
             self._pos = off
         elif whence == 1:
